@@ -10,6 +10,7 @@
 //	slice    Slice[T]: exported Values checked for heap order after every call (slice.go)
 //	generic  Init/Push/Pop/Remove/Fix on harness containers that log swaps     (generic.go)
 //	sweep    Remove / Fix at every index (and every handle) of one small heap  (sweep.go)
+//	*-deep   the heap / slice / generic mixes on trees of depth 8..11
 //	intdiff  int heaps of all flavours against container/heap                  (intdiff.go)
 //	reinit   Heap.Init on a non-empty heap: the discarded elements' handles    (heap.go)
 package main
@@ -56,6 +57,16 @@ func guard(c *ev.Case, name string, fn func()) bool {
 type item struct{ K, ID int }
 
 func (it item) String() string { return fmt.Sprintf("%d#%d", it.K, it.ID) }
+
+// iv prints a list of items, abbreviated when it is long (deep engines).
+type iv []item
+
+func (v iv) String() string {
+	if len(v) <= 48 {
+		return fmt.Sprint([]item(v))
+	}
+	return fmt.Sprintf("[%d items: %v ... %v]", len(v), []item(v[:12]), []item(v[len(v)-4:]))
+}
 
 // order is a strict weak order on items (always "f(a.K) < f(b.K)" for some f).
 type order struct {
@@ -198,6 +209,10 @@ func main() {
 	r.Cases("slice", r.N(80000, 2000000), opt, sliceCase)
 	r.Cases("generic", r.N(80000, 2000000), opt, genericCase)
 	r.Cases("sweep", r.N(5000, 120000), opt, sweepCase)
+	// deep trees (hundreds to thousands of elements, thousands of operations)
+	r.Cases("heap-deep", r.N(40, 1500), opt, heapDeepCase)
+	r.Cases("slice-deep", r.N(60, 2500), opt, sliceDeepCase)
+	r.Cases("generic-deep", r.N(60, 2500), opt, genericDeepCase)
 	r.Cases("intdiff", r.N(20000, 500000), opt, intDiffCase)
 	r.Cases("reinit", r.N(5000, 100000), opt, reinitCase)
 
@@ -244,6 +259,13 @@ func main() {
 		"generic/fix":                  10000,
 		"generic/swaps":                100000,
 		"generic/order_checks":         500000,
+		"deep/h_pop":                   2000,
+		"deep/h_remove_live":           2000,
+		"deep/h_fix_live":              2000,
+		"deep/s_remove_in_range":       2000,
+		"deep/s_fix_in_range":          2000,
+		"deep/g_remove":                2000,
+		"deep/g_fix":                   2000,
 		"sweep/heap_remove_handle":     5000,
 		"sweep/heap_fix_handle":        20000,
 		"sweep/slice_remove_index":     5000,
